@@ -1578,7 +1578,13 @@ class CommandTask : public Task {
       // Execute the command, with notifications to the delegate.
       command.execute(getBuildSystem(ti).getBuildSystem(), ti, context, [ti](BuildValue&& result) mutable {
         // Inform the engine of the result.
-        if (result.isFailedCommand()) {
+        //
+        // A command whose process was interrupted or killed although the build
+        // itself is not being cancelled (e.g. by an external SIGKILL) did not
+        // produce its outputs either, so it also counts as a failure of the
+        // build; otherwise such a build would report success.
+        if (result.isFailedCommand() ||
+            (result.isCancelledCommand() && !ti.isCancelled())) {
           getBuildSystem(ti).getDelegate().hadCommandFailure();
         }
         ti.complete(result.toData());
